@@ -440,7 +440,7 @@ void Run::do_reinit(int chan) {
   W.api_seq++;
   note("reinit");
   int rc = ares_reinit(c.ch);
-  if (rc == ARES_SUCCESS) { srv_list_events.push_back({W.now_us, 2, W.seq}); files_changed_since_init = false; }
+  if (rc == ARES_SUCCESS) { srv_list_events.push_back({W.now_us, 2, W.seq}); files_changed_since_init = false; } else note("reinit_failed");
   read_effective();
 }
 
@@ -558,6 +558,8 @@ int Run::submit(int kind, int name_sel, int type_sel, int reaction, int react_ki
       unsigned char a[16] = {0};
       if (!v6) { a[0] = 10; a[1] = 201; a[2] = (unsigned char)(token >> 8); a[3] = (unsigned char)(token & 255); }
       else { a[0] = 0xfd; a[1] = 0x77; a[14] = (unsigned char)(token >> 8); a[15] = (unsigned char)(token & 255); a[7] = (unsigned char)(name_sel & 0xff); }
+      // a share of reverse lookups asks for an address the virtual hosts file lists (10.77.0.1 / fd77::1), so both sources know it
+      if ((int)(type_sel % 100) < (int)cfg.knob("reverse_hosts_pct", 0)) { memset(a, 0, sizeof a); if (!v6) { a[0] = 10; a[1] = 77; a[3] = 1; } else { a[0] = 0xfd; a[1] = 0x77; a[15] = 1; } }
       reqs[(size_t)token].family = v6 ? AF_INET6 : AF_INET;
       reqs[(size_t)token].addr_bytes.assign((const char *)a, v6 ? 16 : 4);
       reqs[(size_t)token].qtype = 12;
@@ -940,7 +942,7 @@ void Run::exec_step(const Step &s) {
     case S_SORTLIST: {
       static const char *sl[] = {"10.0.0.0/8", "10.1.0.0/255.255.0.0 10.0.0.0/8", "fd00::/8", "192.0.2.0/24 10.128.0.0/9", "10.0.0.0/9"};
       static const char *canon[] = {"10.0.0.0/8", "10.1.0.0/16,10.0.0.0/8", "fd00::/8", "192.0.2.0/24,10.128.0.0/9", "10.0.0.0/9"};
-      if (chans[0].alive) { W.api_seq++; int rc = ares_set_sortlist(chans[0].ch, sl[(size_t)s.a % 5]); note("set_sortlist"); if (rc == ARES_SUCCESS) user_set_later["sortlist"] = canon[(size_t)s.a % 5]; }
+      if (chans[0].alive) { W.api_seq++; int rc = ares_set_sortlist(chans[0].ch, sl[(size_t)s.a % 5]); note("set_sortlist"); if (rc == ARES_SUCCESS) user_set_later["sortlist"] = canon[(size_t)s.a % 5]; else note("set_sortlist_failed"); }
       break;
     }
     default:
